@@ -260,15 +260,15 @@ CLAIMED['C12'] = dict(
          'grid dataset in any storage order the axis of a name is its number in file order and the reduced array is the one that C01\'s coordinate '
          'theorem describes (composition with grid_to_nd); the columns kept on a reduced side are prod(kept sizes) many and the j-th one carries '
          'the digits of j along the kept dimensions and 0 along the reduced ones (selected-rows enumeration theorem of C11), i.e. every remaining '
-         'coordinate combination exactly once; with fewer than two axes left the call raises. Correspondence on sum / max / min (exact integers): '
+         'coordinate combination exactly once; with fewer than two axes left the call raises. Correspondence on sum / max / min (exact integers) and mean / std (exact rational moments, tolerance 2^-16): '
          'returned array, written matrix, new ancillaries, reuse of untouched sides, raise / no raise, and agreement of the matrix-level and '
          'digit-level descriptions of the kept columns. Oracle (all five functions): numpy on the N-D form, fibre-wise check of every file element.',
     design='5/C12',
     note='Values matrices of rebuilt sides are modelled too (Usid/ReduceVals: entry = original reference value of the index at the same place; on a grid the rebuilt side reports the original unit values of the kept dimensions) and tied by correspondence (check12v). Written back (theorem C12_written_back_coordinates, grid datasets in any storage order, at least one dimension left on either side): the '
          'reduced ancillary matrices are again grid matrices (write_reduced_grid: matrix level = digit level, kept dimensions in the same relative '
          'order) and element (r,c) of the written matrix is the reduced value at the coordinates the new matrices carry (composition of the C01 '
-         'exact-shape theorem, the fibre lemma and the C10 coordinate-map theorem). Partial: mean and std are floating point and are judged by the '
-         'numpy oracle only. A fully reduced side (theorems C12_all_position_dimensions_reduced / C12_all_spectroscopic_dimensions_reduced) becomes the '
+         'exact-shape theorem, the fibre lemma and the C10 coordinate-map theorem). mean and std: the model carries the exact (sum, sum of squares, count) of every fibre (Usid/ReduceMoments: C12_moments_are_fibrewise, count = product of the reduced sizes > 0, '
+         'C12_variance_from_moments: (cQ - S^2)/c^2 is the population variance, C12_mean_std_in_memory on grids) and the correspondence (check12m) compares the exact rational mean / variance with the floating-point numbers returned and written, as exact binary fractions, inside a relative tolerance of 2^-16; partial only in that the rounding of the division / square root is bounded, not modelled bit for bit. A fully reduced side (theorems C12_all_position_dimensions_reduced / C12_all_spectroscopic_dimensions_reduced) becomes the '
          '1 x 1 placeholder labelled with the next free dimension number and the written vector is laid out by the other side\'s new grid (squeezed path of '
          'reshape_from_n_dims, >= 2 dimensions left there; with fewer the call raises). '
          'Trusted: Coq kernel, harness, dask reductions.',
